@@ -111,6 +111,7 @@ ArrIArrVV = z3.ArraySort(I, ArrVV)        # dict.val
 
 
 def field_sort(name):
+    name = name.split('@')[0]
     if name in ('list.items', 'dict.keys', 'gen.items'):
         return ArrIArrIV
     if name in ('list.len', 'dict.n', 'cls', 'gen.pos', 'gen.n', 'gen.exc'):
